@@ -12,7 +12,13 @@ abort | crash; persistent backends are closed and re-opened in between.
 Oracle, per backend, against two Dict references (C = added in groups whose commit
 returned, A = ever added): every query answer must be the reference answer; where C and
 A differ (aborted, crashed or still-open groups) either is accepted.  A crashed
-commit_write_group of the Index backend must be all-or-nothing after re-opening."""
+commit_write_group of the Index backend must be all-or-nothing after re-opening.
+
+A run (one forked child) evaluates CASES_PER_RUN independent cases, each with its own
+stores and files.  Disagreements whose signature is an open entry of
+known_findings.json are noted and the case goes on; any other disagreement fails the run
+(env VERIF_C38_COLLECT=1 additionally keeps every disagreement of a run in
+sim.notes['all_disagreements'], for triage scripts)."""
 
 import copy
 import os
@@ -54,7 +60,7 @@ ASSUMPTIONS = [
     "the put of IndexGitShaMap.commit_write_group is atomic",
 ]
 STEP_CAP = 400000
-ISOLATION = os.environ.get("VERIF_C38_ISOLATION", "fork")
+ISOLATION = "fork"  # repositories and sqlite connections: every run starts from the warmed parent image
 
 
 def warm():
